@@ -15,8 +15,10 @@ import random
 from harness.core import (MachineryError, REPO, model_check, read_events, require, run_driver, seed, selftest_trace,
                           spec_mutant, validate_trace, work_dir)
 
-QUICK_THEORIES = ["logic_base", "set"]
-MORE = ["logic", "nat", "function", "list", "int", "real", "expr", "hoare"]
+# theorems of logic_base itself are not used: while it is being built the theory does not yet contain the base logic
+# (the recorded proof of `trivial` needs the theorem `trivial`); the property quantifies over theories that contain it
+QUICK_THEORIES = ["logic", "set"]
+MORE = ["nat", "function", "list", "int", "real", "expr", "hoare"]
 
 
 def keyf(e):
